@@ -387,6 +387,9 @@ func (p *Path) addAxiom(key string, ax *Term) {
 // ---------------------------------------------------------------- equality
 
 func (p *Path) equalValues(x, y Value) *Term {
+	if p.lenient > 0 && (isPoison(x) || isPoison(y)) {
+		return TFalse
+	}
 	switch a := x.(type) {
 	case nil:
 		return TBool(isNilValue(y))
